@@ -1,7 +1,7 @@
 SPECIFICATION Spec
 CONSTANTS
   Export = TRUE
-  U = 1
+  U = 2
 INVARIANTS Inv Idempotent LiveOK
 PROPERTIES TombstonesGrow
 CHECK_DEADLOCK FALSE
